@@ -215,15 +215,18 @@ structure Flow.WF (f : Flow) : Prop where
   nodup : f.closeReasons.Nodup
   cap : f.call.analyzed = true ∨ f.call.req.added.length + 2 ≤ MAX_EXTRA
   hdrs : f.call.analyzed = true → f.call.req.headers ≠ []
-  prep : f.st = .prepare → f.call.analyzed = false
+  prep : f.st = .prepare → f.call.analyzed = false ∧ f.call.phase = .sendLine
+  ph : f.call.phase ≠ .sendLine → f.call.analyzed = true
   nobody : f.holder = .withoutBody →
     f.call.skipCheck = false ∧ f.call.req.method.needBody = false ∧ f.call.writer = BodyWriter.newNone
   body : f.holder = .withBody → f.call.writer.mode ≠ .none
   sbody : f.st = .sendBody → f.call.phase = .sendBody ∧ f.call.analyzed = true
-  await : f.st = .await100 → f.call.analyzed = true
+  await : f.st = .await100 → f.call.analyzed = true ∧ f.call.phase = .sendBody
   rdr : (f.st = .recvBody ∨ f.st = .redirect ∨ f.st = .cleanup) → f.call.reader.isSome = true
   stat : f.call.reader.isSome = true → f.status.isSome = true
   trl : f.call.reader ≠ some (.chunked .trailer)
+  aw : f.st = .await100 → f.await100 = true → f.shouldSendBody = true
+  post : (f.st = .recvResponse ∨ f.st = .recvBody ∨ f.st = .redirect ∨ f.st = .cleanup) → f.call.analyzed = true
 
 /-- protocol rules beyond the types: the documented header budget, and no `try_read_100` after
     `can_keep_await_100()` turned false -/
@@ -244,12 +247,12 @@ theorem Flow.new_wf (m : Method) (v : Version) (u : Uri) (orig : List Hdr) : (Fl
 
 theorem wf_of_eq_fields {f g : Flow} (h : f.WF)
     (h1 : g.st = f.st) (h2 : g.holder = f.holder) (h3 : g.call = f.call) (h4 : g.closeReasons = f.closeReasons)
-    (h5 : g.shouldSendBody = f.shouldSendBody) (h6 : g.status = f.status) : g.WF := by
-  obtain ⟨a1, a2, a3, a4, a5, a6, a7, a8, a9, a10, a11, a12, a13⟩ := h
+    (h5 : g.shouldSendBody = f.shouldSendBody) (h6 : g.status = f.status) (h7 : g.await100 = f.await100) : g.WF := by
+  obtain ⟨a1, a2, a3, a4, a5, a6, a6', a7, a8, a9, a10, a11, a12, a13, a14, a15⟩ := h
   constructor <;> simp_all [holderOk, sendOk]
 
 theorem canProceed_ok (f : Flow) (hwf : f.WF) : ∃ b, f.canProceed = .ok b := by
-  obtain ⟨a1, a2, a3, a4, a5, a6, a7, a8, a9, a10, a11, a12, a13⟩ := hwf
+  obtain ⟨a1, a2, a3, a4, a5, a6, a6', a7, a8, a9, a10, a11, a12, a13, a14, a15⟩ := hwf
   unfold Flow.canProceed
   cases hst : f.st <;> simp only [holderOk, hst] at a1 a11 ⊢
   · exact ⟨_, rfl⟩
